@@ -105,9 +105,12 @@ Proof.
   intros Hab. unfold clt, ceq. induction l as [|w l IH]; [unfold count_if; simpl; lia|].
   rewrite !count_if_cons.
   destruct (Rltb w a) eqn:E1, (Reqb w a) eqn:E2, (Rltb w b) eqn:E3;
-    try apply Rltb_true in E1; try apply Rltb_false in E1;
-    try apply Reqb_true in E2; try apply Reqb_false in E2;
-    try apply Rltb_true in E3; try apply Rltb_false in E3; try lia; try lra.
+    repeat match goal with
+           | H : Rltb _ _ = true |- _ => apply Rltb_true in H
+           | H : Rltb _ _ = false |- _ => apply Rltb_false in H
+           | H : Reqb _ _ = true |- _ => apply Reqb_true in H
+           | H : Reqb _ _ = false |- _ => apply Reqb_false in H
+           end; try lia; try lra.
 Qed.
 
 Lemma rank_lt a b l : In a l -> In b l -> a < b -> rankR l a < rankR l b.
@@ -224,11 +227,3 @@ Proof.
   assert (obs <> []) by (intros ->; simpl in Hp; rewrite SS_nil in Hp; lra).
   rewrite corr_single_spearman_R by auto. now rewrite spearman_self.
 Qed.
-
-(* Spearman corr of one-member ensembles is unchanged when the transform is replaced by
-   any other strictly increasing one (e.g. Log instead of Identity on positive data it is
-   the composition that counts): stated on the transformed series *)
-Lemma corr_spearman_monotone f g excl st obs sim :
-  (forall a b, a < b -> f a < f b) -> (forall a b, a < b -> g a < g b) ->
-  spearman RR (map f obs) (map g sim) = spearman RR obs sim.
-Proof. intros Hf Hg. now apply spearman_monotone. Qed.
